@@ -480,6 +480,25 @@ impl Value {
         }
     }
 
+    /// Checks whether the value can be converted to JSON. Returns an error if the value contains
+    /// a Mapping key which can't be represented as a JSON object key, or a ValueList.
+    fn check_json_compatible(&self) -> Result<()> {
+        match self {
+            Value::Mapping(m) => {
+                for (k, v) in m {
+                    if k.is_mapping() || k.is_sequence() || k.is_value_list() {
+                        return Err(anyhow!("Can't serialize {} as JSON key", k.variant()));
+                    }
+                    v.check_json_compatible()?;
+                }
+                Ok(())
+            }
+            Value::Sequence(s) => s.iter().try_for_each(Value::check_json_compatible),
+            Value::ValueList(_) => Err(anyhow!("Can't serialize Value::ValueList as JSON")),
+            _ => Ok(()),
+        }
+    }
+
     /// Renders the value as a string which is suitable for doing value lookups during parameter
     /// interpolation. Returns an error when called on ValueLists or Strings.
     ///
@@ -505,10 +524,12 @@ impl Value {
             // work cleanly for embedded references in multiline strings which contain YAML, as the
             // indentation will break.
             Value::Mapping(m) => {
+                self.check_json_compatible()?;
                 let m = serde_json::Map::<String, serde_json::Value>::from(m.clone());
                 serde_json::to_string(&m).map_err(|e| anyhow!(e))
             }
             Value::Sequence(_) => {
+                self.check_json_compatible()?;
                 let v = serde_json::Value::from(self.clone());
                 serde_json::to_string(&v).map_err(|e| anyhow!(e))
             }
